@@ -1,6 +1,6 @@
 (* C06 - the pyc header is decoded per the file format of the bytecode's version. *)
 From Xdis Require Import Base.Prelude Base.Result Base.LE Model.Magic Model.Load Gen.Magics Gen.RefMagics
-  Spec.Registry Spec.Header Proofs.HeaderProofs.
+  Spec.Registry Spec.Header Proofs.HeaderDefs Proofs.HeaderProofs.
 
 (* For the magic of every final CPython release (1.0-3.13; from CPython's registry) and of
    every PyPy file of /repo's corpus, for EVERY byte string after the 4 magic bytes (every
